@@ -194,7 +194,8 @@ def rule_linear_ctx(ctx):
     f = fx.fn(key)
     n, bad = 0, []
     V = 3       # scrutinee id
-    for clen in range(0, 4):
+    deep = ctx.tier == "thorough"
+    for clen in range(0, 5 if deep else 4):
         for C in itertools.permutations((1, 2, 3, 4), clen):
             if V not in C:
                 continue
@@ -255,9 +256,10 @@ def rule_linear_ctx(ctx):
     f = fx.fn(key)
     n, bad = 0, []
     W = 9       # the closure variable
-    subsets = list(itertools.chain.from_iterable(itertools.combinations((1, 2, 3), k) for k in range(0, 4)))
-    for clen in range(0, 4):
-        for C in itertools.permutations((1, 2, 3), clen):
+    pool = (1, 2, 3, 4) if deep else (1, 2, 3)
+    subsets = list(itertools.chain.from_iterable(itertools.combinations(pool, k) for k in range(0, len(pool) + 1)))
+    for clen in range(0, len(pool) + 1):
+        for C in itertools.permutations(pool, clen):
             for fc in subsets:
                 for fnx in subsets:
                     n += 1
